@@ -593,7 +593,7 @@ func (vc *VC) execCall(fr *Frame, st *State, reach string, instr ssa.Instruction
 		iface := typeKey(common.Value.Type())
 		key := iface + "." + common.Method.Name()
 		ms := vc.P.methods[key]
-		n := fr.countCall(common.Method.Name())
+		n := fr.ordinal[instr]
 		vc.safety(fr, "nil", reach, "(not (= (i_typ "+vc.valTerm(recv)+") 0))", "method call on nil interface at "+pos)
 		vc.ghostPoint(fr, st, reach, "before", "call", n, common.Method.Name())
 		var res Val
@@ -635,8 +635,7 @@ func (vc *VC) execCall(fr *Frame, st *State, reach string, instr ssa.Instruction
 	}
 	if callee == nil {
 		// dynamic call through a func value
-		fr.dynOrd++
-		n := fr.dynOrd
+		n := fr.ordinal[instr]
 		var tcName string
 		top := fr.topFrame()
 		if top.spec != nil && top.spec.DynCalls != nil {
@@ -672,7 +671,7 @@ func (vc *VC) execCall(fr *Frame, st *State, reach string, instr ssa.Instruction
 	if key == "" {
 		key = vc.P.funcKey(callee)
 	}
-	n := fr.countCall(callee.Name())
+	n := fr.ordinal[instr]
 	vc.ghostPoint(fr, st, reach, "before", "call", n, key)
 	var res Val
 	variant := ""
@@ -754,13 +753,21 @@ func (vc *VC) frameCheckAll(fr *Frame, st *State, reach string, in ssa.Instructi
 
 // havocAllForCall: an unknown callee may change every heap and every local whose address it receives
 func (vc *VC) havocAllForCall(fr *Frame, st *State, args []Val) {
+	vc.havocForCall(fr, st, args, false)
+}
+
+func (vc *VC) havocForCall(fr *Frame, st *State, args []Val, keepGhosts bool) {
 	for _, a := range args {
 		if a.A != nil && a.A.Kind == aLocal {
 			c := a.A.Cell
 			st.locals[c] = vc.fresh("hv_"+c.Name, vc.S.sortOf(c.T))
 		}
 	}
-	vc.havocAll(st)
+	if keepGhosts {
+		vc.havocHeaps(st)
+	} else {
+		vc.havocAll(st)
+	}
 	na := vc.fresh("alloc", "Int")
 	vc.assume("(>= " + na + " " + st.alloc + ")")
 	st.alloc = na
@@ -890,7 +897,8 @@ func (vc *VC) applySpec(fr *Frame, st *State, reach string, spec *FuncSpec, call
 		for _, v := range names {
 			as = append(as, v)
 		}
-		vc.havocAllForCall(fr, st, as)
+		// a contract with "modifies *" may change every heap; ghost variables only if listed as ghost(...)
+		vc.havocForCall(fr, st, as, true)
 	} else {
 		// frame conformance of the caller
 		if top.modCheck {
@@ -943,14 +951,14 @@ func (vc *VC) applySpec(fr *Frame, st *State, reach string, spec *FuncSpec, call
 			vc.assume("(>= " + na + " " + st.alloc + ")")
 			st.alloc = na
 		}
-		// ghost variables: modifies ghost(name)
-		for _, m := range spec.Modifies {
-			if c, ok := m.(*Call); ok && c.Fun == "ghost" {
-				for _, a := range c.Args {
-					if id, ok := a.(*Ident); ok {
-						if gv := vc.P.ghosts[id.Name]; gv != nil && !gv.Const {
-							st.ghosts[id.Name] = vc.fresh("g_"+id.Name, vc.S.tySort(vc.tyOfTypeExprL(gv.Type, true)))
-						}
+	}
+	// ghost variables: modifies ghost(name, ...)
+	for _, m := range spec.Modifies {
+		if c, ok := m.(*Call); ok && c.Fun == "ghost" {
+			for _, a := range c.Args {
+				if id, ok := a.(*Ident); ok {
+					if gv := vc.P.ghosts[id.Name]; gv != nil && !gv.Const {
+						st.ghosts[id.Name] = vc.fresh("g_"+id.Name, vc.S.tySort(vc.tyOfTypeExprL(gv.Type, true)))
 					}
 				}
 			}
@@ -1295,6 +1303,7 @@ func (vc *VC) specHeaps(spec *FuncSpec, callee *ssa.Function, common *ssa.CallCo
 	saveLines, saveFresh, saveErr := len(vc.lines), vc.nfresh, len(vc.specErrors)
 	defer func() {
 		vc.lines = vc.lines[:saveLines]
+		vc.lineTag = vc.lineTag[:saveLines]
 		vc.nfresh = saveFresh
 		vc.specErrors = vc.specErrors[:saveErr]
 		if r := recover(); r != nil {
